@@ -19,7 +19,7 @@ fn cfg(first: usize, second: usize, ids: (&str, &str)) -> Cfg {
     let seeds: Vec<Vec<usize>> = (0..n).map(|i| (0..n).filter(|j| *j != i).collect()).collect();
     let mut props = BTreeSet::new();
     props.insert("C16");
-    Cfg { n, keys: vec!["a".into(), "b".into()], vals: vec!["".into(), "1".into(), "2".into()], grace_ms: 10_000, cluster_ids, seeds, props, mapped_addr_nodes: vec![] }
+    Cfg { n, keys: vec!["a".into(), "b".into()], vals: vec!["".into(), "1".into(), "2".into()], grace_ms: 10_000, cluster_ids, seeds, props, mapped_addr_nodes: vec![], same_node_id_as_0: vec![] }
 }
 
 /// Every prefix of a foreign cluster's SYN (a datagram that lost its tail), for cluster ids in every
